@@ -218,6 +218,10 @@ class C13(Prop):
                          max_depth=rng.choice([2, 3, 5]), n_extra_threads=rng.choice([0, 0, 1]), bwd_thread=rng.random() < 0.6,
                          bwd_annotation=rng.random() < 0.5, base=rng.choice([1000, 10 ** 6, 0]), streams=rng.choice([(7,), (7, 9)]),
                          p_drop_kernel=rng.choice([0, 0.1]), p_drop_launch=rng.choice([0, 0.1]), unlinked_head=rng.choice([0, 1]))
+        if cfg.n_ranks > 1 and rng.random() < 0.5:
+            cfg.per_rank = {1: {"bwd_annotation": not cfg.bwd_annotation}}       # ranks of one job instrumented differently
+        if k % 40 in (7, 23, 31):
+            cfg.pad_entries = {7: 33000, 23: 70000, 31: 300}[k % 40]               # event ids beyond 15 / 16 / 8 bits
         case = case_from_cfg(rng, cfg)
         case["nstacks"] = 4
         case["prefix"] = draw_prefix(rng)
